@@ -22,23 +22,21 @@ constexpr auto submdspan_static_extent() -> etl::size_t
 {
     using IndexT = typename Extent::index_type;
 
-    if constexpr (Extent::static_extent(Extent::rank() - K) != etl::dynamic_extent) {
-        if constexpr (etl::is_convertible_v<Sk, etl::full_extent_t>) {
-            return Extent::static_extent(Extent::rank() - K);
-        } else if constexpr (index_pair_like<Sk, IndexT>) {
-            using FirstT  = etl::tuple_element_t<0, Sk>;
-            using SecondT = etl::tuple_element_t<1, Sk>;
-            if constexpr (integral_constant_like<FirstT> and integral_constant_like<SecondT>) {
-                return static_cast<etl::size_t>(de_ice(etl::tuple_element_t<1, Sk>()) - de_ice(etl::tuple_element_t<0, Sk>()));
-            }
-        } else if constexpr (is_strided_slice<Sk>) {
-            using ExtT    = typename Sk::extent_type;
-            using StrideT = typename Sk::stride_type;
-            if constexpr (integral_constant_like<ExtT> and not integral_constant_like<StrideT> and ExtT() == 0) {
-                return 0;
-            } else if constexpr (integral_constant_like<ExtT> and integral_constant_like<StrideT>) {
-                return static_cast<etl::size_t>(1 + (de_ice(ExtT()) - 1) / de_ice(StrideT()));
-            }
+    if constexpr (etl::is_convertible_v<Sk, etl::full_extent_t>) {
+        return Extent::static_extent(Extent::rank() - K);
+    } else if constexpr (index_pair_like<Sk, IndexT>) {
+        using FirstT  = etl::tuple_element_t<0, Sk>;
+        using SecondT = etl::tuple_element_t<1, Sk>;
+        if constexpr (integral_constant_like<FirstT> and integral_constant_like<SecondT>) {
+            return static_cast<etl::size_t>(de_ice(etl::tuple_element_t<1, Sk>()) - de_ice(etl::tuple_element_t<0, Sk>()));
+        }
+    } else if constexpr (is_strided_slice<Sk>) {
+        using ExtT    = typename Sk::extent_type;
+        using StrideT = typename Sk::stride_type;
+        if constexpr (integral_constant_like<ExtT> and not integral_constant_like<StrideT> and ExtT() == 0) {
+            return 0;
+        } else if constexpr (integral_constant_like<ExtT> and integral_constant_like<StrideT>) {
+            return static_cast<etl::size_t>(1 + (de_ice(ExtT()) - 1) / de_ice(StrideT()));
         }
     }
 
